@@ -2,6 +2,7 @@ import Model.Codec
 import Spec.Codec
 import Model.Wire
 import Spec.Wire
+import Model.Ser
 import Drivers.Common
 /-! `vm_c14`: line protocol over `Model.Codec` / `Spec.Codec` / `Model.Wire` / `Spec.Wire`.
 Byte strings travel hex-encoded. Fields of a request are separated by TAB.
@@ -13,6 +14,9 @@ Byte strings travel hex-encoded. Fields of a request are separated by TAB.
   av <v> · atag <num> <wt> · af32 <v> · af64 <v> · abytes <hex>  → <hex>
   parse <opts> <hex>                       → ok:<tree> | err:<kind>
   enc <tree>                               → <hex> | bad-tree
+  ser <val>                                → some:<hex> | none
+  unser <hex>   (input already TrimSpace'd) → value:<val> | false | legacy
+  val: N T F I<int> S<hex> D A[<val>,…] O{<hexkey>:<val>,…}
   opts: msg=1,2;packed=3;et=3:0,4:5;max=64
   tree: fields joined by ';' — V<n>:<v> Q<n>:<v> D<n>:<v> B<n>:<hex> P<n>:<et>:<v>,<v> M<n>{…} G<n>{…}
 -/
@@ -142,6 +146,59 @@ def readTree (s : String) : Option FT :=
   | some (t, []) => some t
   | _ => none
 
+/-! PHP values -/
+open Model.Ser in
+mutual
+partial def pvS : PV → String
+  | .null => "N"
+  | .bool true => "T"
+  | .bool false => "F"
+  | .int i => "I" ++ toString i
+  | .str s => "S" ++ hexS s
+  | .float => "D"
+  | .arr items => "A[" ++ ",".intercalate (plS false items) ++ "]"
+  | .obj props => "O{" ++ ",".intercalate (plS true props) ++ "}"
+partial def plS (keyed : Bool) : PL → List String
+  | .nil => []
+  | .cons k v rest => ((if keyed then hexS k ++ ":" else "") ++ pvS v) :: plS keyed rest
+end
+
+open Model.Ser in
+mutual
+partial def readPV (cs : List Char) : Option (PV × List Char) :=
+  match cs with
+  | 'N' :: r => some (.null, r)
+  | 'T' :: r => some (.bool true, r)
+  | 'F' :: r => some (.bool false, r)
+  | 'D' :: r => some (.float, r)
+  | 'I' :: r =>
+      let body := r.takeWhile (fun c => c.isDigit || c == '-')
+      (String.ofList body).toInt?.map (fun i => (.int i, r.drop body.length))
+  | 'S' :: r =>
+      let body := r.takeWhile (fun c => (hexVal? c).isSome)
+      (unhexL body).map (fun b => (.str b, r.drop body.length))
+  | 'A' :: '[' :: r => (readPL false r ']').map (fun (l, r') => (.arr l, r'))
+  | 'O' :: '{' :: r => (readPL true r '}').map (fun (l, r') => (.obj l, r'))
+  | _ => none
+partial def readPL (keyed : Bool) (cs : List Char) (close : Char) : Option (PL × List Char) :=
+  match cs with
+  | c :: r =>
+      if c == close then some (.nil, r)
+      else if c == ',' then readPL keyed r close
+      else do
+        let (k, r1) ←
+          if keyed then
+            let body := cs.takeWhile (fun c => (hexVal? c).isSome)
+            match cs.drop body.length with
+            | ':' :: r1 => (unhexL body).map (fun b => (b, r1))
+            | _ => none
+          else some ([], cs)
+        let (v, r2) ← readPV r1
+        let (rest, r3) ← readPL keyed r2 close
+        some (.cons k v rest, r3)
+  | [] => none
+end
+
 def onHex (s : String) (f : List Nat → String) : String :=
   match unhexS s with
   | some l => f l
@@ -186,6 +243,15 @@ def handle (line : String) : String :=
       match readTree t with
       | some t => hexS (Spec.Wire.encode t)
       | none => "bad-tree"
+  | ["ser", v] =>
+      match readPV v.toList with
+      | some (pv, []) => optS (Model.Ser.ser pv)
+      | _ => "bad-val"
+  | ["unser", h] => onHex h (fun l => match Model.Ser.unserializeT l with
+      | .value (.bool false) => "false"   -- `b:0;` and failure are the same script-level result
+      | .value v => "value:" ++ pvS v
+      | .false => "false"
+      | .legacy => "legacy")
   | _ => "bad-op"
 
 def main : IO Unit := Drivers.runDriver handle
